@@ -603,6 +603,80 @@ theorem addUnits_nodes_width (fold : N → N) : ∀ (us : List (UnitD N)) (names
           · simp only; omega
           · exact addUnits_nodes_width fold us _ _ r' hr' n hn
 
+/-! ## Helpers for the checker `checkC09` (any processor object) -/
+
+section Checker
+variable (fold : N → N)
+
+theorem uniqueUpToFold_iff : ∀ l : List N, uniqueUpToFold fold l = true ↔ l.Pairwise (fun a b => fold a ≠ fold b)
+  | [] => by simp [uniqueUpToFold]
+  | a :: l => by
+    simp only [uniqueUpToFold, Bool.and_eq_true, List.all_eq_true, Bool.not_eq_true', decide_eq_false_iff_not,
+      List.pairwise_cons, uniqueUpToFold_iff l]
+
+theorem connIn_rgOfProc (p : Proc N) : ConnIn (rgOfProc p) := by
+  intro a b h
+  have h' : edgeB p a b = true := h
+  unfold edgeB at h'
+  rw [List.any_eq_true] at h'
+  obtain ⟨f, hf, hfb⟩ := h'
+  simp only [Bool.and_eq_true, decide_eq_true_eq] at hfb
+  show b ∈ procNames p
+  unfold procNames Proc.allUnits
+  rw [← hfb.1]
+  rcases List.mem_append.1 hf with hf | hf
+  · simp only [List.map_append, List.mem_append, List.mem_map]
+    exact Or.inl (Or.inr ⟨f.model, ⟨f, hf, rfl⟩, rfl⟩)
+  · simp only [List.map_append, List.mem_append, List.mem_map]
+    exact Or.inr ⟨f.model, ⟨f, hf, rfl⟩, rfl⟩
+
+theorem eq_of_map_nodup {α β : Type} (f : α → β) : ∀ {l : List α}, (l.map f).Nodup → ∀ {x y : α}, x ∈ l → y ∈ l →
+    f x = f y → x = y
+  | [], _, _, _, hx, _, _ => by cases hx
+  | a :: l, hn, x, y, hx, hy, hxy => by
+    rw [List.map_cons, List.nodup_cons] at hn
+    rcases List.mem_cons.1 hx with hxa | hx
+    · rcases List.mem_cons.1 hy with hya | hy
+      · rw [hxa, hya]
+      · exact absurd (List.mem_map.2 ⟨y, hy, by rw [← hxy, hxa]⟩) hn.1
+    · rcases List.mem_cons.1 hy with hya | hy
+      · exact absurd (List.mem_map.2 ⟨x, hx, by rw [hxy, hya]⟩) hn.1
+      · exact eq_of_map_nodup f hn.2 hx hy hxy
+
+theorem mem_allUnits_of_dest {p : Proc N} {f : FuncU N} (hf : f ∈ p.outPorts ++ p.internal) : f.model ∈ p.allUnits := by
+  unfold Proc.allUnits
+  rcases List.mem_append.1 hf with hf | hf
+  · simp only [List.mem_append, List.mem_map]
+    exact Or.inl (Or.inr ⟨f, hf, rfl⟩)
+  · simp only [List.mem_append, List.mem_map]
+    exact Or.inr ⟨f, hf, rfl⟩
+
+theorem mem_allUnits_of_inBoundary {p : Proc N} {m : UnitM N} (hm : m ∈ p.inBoundary) : m ∈ p.allUnits := by
+  unfold Proc.inBoundary at hm
+  unfold Proc.allUnits
+  rcases List.mem_append.1 hm with hm | hm <;> simp [hm]
+
+theorem supB_of_mem {p : Proc N} {m : UnitM N} (hm : m ∈ p.allUnits) {c : N} (hc : c ∈ m.caps) :
+    supB p m.name c = true := by
+  unfold supB
+  rw [List.any_eq_true]
+  exact ⟨m, hm, by simp [hc]⟩
+
+/-- the eight clauses of `checkC09` -/
+theorem checkC09_eq (p : Proc N) : checkC09 fold p = true ↔
+    ((p.outPorts ++ p.internal).all (fun f => f.preds.all (fun q => decide (q ∈ procNames p))) = true ∧
+     (rgOfProc p).acyclicB = true ∧
+     p.allUnits.all (fun m => decide (0 < m.width)) = true ∧
+     uniqueUpToFold fold (procNames p) = true ∧
+     p.allUnits.all (fun m => !m.caps.isEmpty) = true ∧
+     (p.outPorts ++ p.internal).all (fun f => f.preds.all (fun q => f.model.caps.any (fun c => supB p q c))) = true ∧
+     p.inBoundary.all (fun m => m.caps.all (fun c => (rgOfProc p).reachesOutB c m.name)) = true ∧
+     p.inBoundary.all (fun m => m.caps.all (fun c => (rgOfProc p).locksExactB c m.name)) = true) := by
+  unfold checkC09 allPass clausesC09
+  simp only [List.all_cons, List.all_nil, Bool.and_true, Bool.and_eq_true, and_assoc]
+
+end Checker
+
 end LoaderBridge
 end Loader
 end ProcSim
